@@ -207,7 +207,7 @@ pub fn run_and_check(p: &Program, seed: &SeedMode, opts: &CheckOpts) -> Outcome 
                 if o.kink {
                     continue;
                 }
-                let (want, scale) = match expected_gradient(p, i, &seedv, root) {
+                let (want, scale) = match expected_gradient_scaled(p, i, &seedv, root, !o.exact) {
                     Some(x) => x,
                     None => continue,
                 };
